@@ -49,6 +49,25 @@ func (q *Q) Do() {}
 
 var Default = New()
 `}},
+		// path elements that merely end in "vendor" are ordinary elements
+		{Import: "example.com/govendor/ctx", Path: "example.com/govendor/ctx", Files: map[string]string{"ctx.go": `package ctx
+
+type Ctx struct{ N int }
+
+func Background() Ctx { return Ctx{} }
+`}},
+		{Import: "xvendor/cfg", Path: "xvendor/cfg", Files: map[string]string{"cfg.go": `package cfg
+
+var Default = 1
+
+func Load() int { return Default }
+`}},
+		{Import: "example.com/myvendor/w", Path: "example.com/app/vendor/example.com/myvendor/w", Files: map[string]string{"w.go": `package w
+
+type W struct{}
+
+func New() W { return W{} }
+`}},
 		{Import: "example.com/lib/v", Path: "example.com/app/vendor/example.com/lib/v", Files: map[string]string{"v.go": `package v
 
 type Vend struct{ X int }
@@ -167,6 +186,20 @@ import "example.com/lib/v"
 
 var vv = v.Make()
 var vw v.Vend
+`},
+	{Name: "vendor-lookalikes", DotFree: true, Src: `package app
+
+import (
+	"example.com/govendor/ctx"
+	"example.com/myvendor/w"
+	vcfg "xvendor/cfg"
+)
+
+var c1 = ctx.Background()
+var c2 ctx.Ctx
+var c3 = vcfg.Load() + vcfg.Default
+var c4 = w.New()
+var c5 w.W
 `},
 	{Name: "composite-keys-and-fields", DotFree: true, Src: `package app
 
